@@ -10,7 +10,7 @@ use crate::p_escape::hex;
 use crate::rng::Rng;
 
 #[derive(Clone, Debug)]
-struct Doc { cram: bool, sub: &'static str, name: String, tests: Vec<char>, bad_prepend: bool }
+struct Doc { cram: bool, sub: &'static str, name: String, tests: Vec<char>, bad_prepend: bool, linked: bool }
 #[derive(Clone, Debug)]
 struct Proc { flag: char, abort: char, docs: Vec<Doc> }   // flag: d default, w --work-directory, k --keep-temporary-directories; abort: - none, u unparsable main document, s unusable shell
 
@@ -76,7 +76,8 @@ fn gen_proc(r: &mut Rng, flag: char, quiet: bool) -> Proc {
             });
             if quiet { let l = tests.len(); tests[l - 1] = 'N'; }
         }
-        docs.push(Doc { cram, sub, name, tests, bad_prepend: !quiet && !cram && r.chance(1, 14) });
+        let bad_prepend = !quiet && !cram && r.chance(1, 14);
+        docs.push(Doc { cram, sub, name, tests, bad_prepend, linked: !bad_prepend && r.chance(1, 8) });
     }
     // identical (sub, name) pairs cannot exist on disk: move duplicates into numbered directories
     let mut seen: Vec<(String, String)> = vec![];
@@ -119,7 +120,16 @@ pub fn run_case(r: &mut Rng, scrut: &str, base: &Path, bash: &str) -> String {
             let ddir = if d.sub.is_empty() { pdir.clone() } else { pdir.join(d.sub) };
             std::fs::create_dir_all(&ddir).unwrap();
             if d.bad_prepend && !d.sub.is_empty() { std::fs::write(ddir.join("unparsable-prepended.md"), "```scrut\n$ true\n[1]\n[2]\n```\n").unwrap(); }
-            std::fs::write(ddir.join(&d.name), render(d, pi, di, &probes)).unwrap();
+            if d.linked {
+                // the document that is run is a symbolic link; what it points to lives elsewhere under another name
+                let store = pdir.join("store");
+                std::fs::create_dir_all(&store).unwrap();
+                let real = store.join(format!("real{}.{}", di, if d.cram { "t" } else { "md" }));
+                std::fs::write(&real, render(d, pi, di, &probes)).unwrap();
+                std::os::unix::fs::symlink(&real, ddir.join(&d.name)).unwrap();
+            } else {
+                std::fs::write(ddir.join(&d.name), render(d, pi, di, &probes)).unwrap();
+            }
             args.push(if d.sub.is_empty() { d.name.clone() } else { format!("{}/{}", d.sub, d.name) });
         }
         if p.abort == 'u' { std::fs::write(pdir.join("zz-unparsable.md"), "```scrut\n$ true\n[1]\n[2]\n```\n").unwrap(); args.push("zz-unparsable.md".into()); }
@@ -136,7 +146,7 @@ pub fn run_case(r: &mut Rng, scrut: &str, base: &Path, bash: &str) -> String {
         cmd.stdout(Stdio::null()).stderr(Stdio::null());
         children.push((cmd.spawn().expect("spawn scrut"), pdir.clone(), wd));
         if shared { std::thread::sleep(std::time::Duration::from_millis(120)); }
-        descr.push(format!("{}{}:{}", if shared { 'W' } else { p.flag }, p.abort, p.docs.iter().map(|d| format!("{}{}{}/{}/{}", if d.cram { 'c' } else { 'm' }, if d.bad_prepend { "!" } else { "" },
+        descr.push(format!("{}{}:{}", if shared { 'W' } else { p.flag }, p.abort, p.docs.iter().map(|d| format!("{}{}{}/{}/{}", if d.cram { 'c' } else { 'm' }, if d.bad_prepend { "!" } else if d.linked { "@" } else { "" },
             d.tests.iter().collect::<String>(), hex(d.sub.as_bytes()), hex(d.name.as_bytes()))).collect::<Vec<_>>().join(",")));
     }
     let mut results = vec![];
